@@ -181,6 +181,11 @@ func (d *Devmod) Validate() error {
 
 func (d *Devmod) writeModuleMessages(modules []string, mtu uint16, w *UnchunkWriter) error {
 	writeChunk := func(chunk DevmodModulesChunk) error {
+		// The owner decodes every chunk on its own, so each one must arrive
+		// in one piece: never let it share a message with what came before
+		if err := w.ForceNewMessage(); err != nil {
+			return err
+		}
 		if err := w.NextServiceInfo(devmodModuleName, "modules"); err != nil {
 			return err
 		}
@@ -202,6 +207,19 @@ func (d *Devmod) writeModuleMessages(modules []string, mtu uint16, w *UnchunkWri
 	// Build chunks iteratively until MTU is exceeded, back out the last
 	// module, write chunk, and continue until the last chunk is encoded.
 	const key = devmodModuleName + ":" + "modules"
+
+	// A chunk is sent as the byte string value of one KV. Compute how many
+	// value bytes ChunkReader.ReadChunk puts next to this key when called
+	// with mtu, so that a chunk is never cut in two.
+	const keySize = 1 + len(key)
+	maxValue := int(mtu) - (1 + keySize + 1)
+	if maxValue >= 24 {
+		maxValue--
+	}
+	if maxValue >= 256 {
+		maxValue--
+	}
+
 	var chunk DevmodModulesChunk
 	for len(modules) > 0 {
 		// Add module to chunk
@@ -214,8 +232,9 @@ func (d *Devmod) writeModuleMessages(modules []string, mtu uint16, w *UnchunkWri
 			return fmt.Errorf("error calculating size of devmod:modules ServiceInfo: %w", err)
 		}
 
-		// Continue if MTU is not exceeded
-		if int(size) <= int(mtu) {
+		// Continue if MTU is not exceeded (size counts two array headers and
+		// the key in addition to the encoded chunk)
+		if int(size)-2-keySize <= maxValue {
 			modules = modules[1:]
 			continue
 		}
